@@ -7,7 +7,7 @@
    operations; Apply) on any lines in any order, SaveAutofixChanges, the
    executable-bit check; [wf_groups] says that the logical lines are a partition
    of the physical lines of the file (any grouping into continuation lines). *)
-From PV Require Import Lib.Bytes Spec.ApplyLog Model.Autofix Proofs.ApplyLog Proofs.Autofix Proofs.AutofixViews Proofs.AutofixSort.
+From PV Require Import Lib.Bytes Spec.ApplyLog Model.Autofix Proofs.ApplyLog Proofs.Autofix Proofs.AutofixViews Proofs.AutofixSort Proofs.AutofixSorted Gen.ReplaceArgs.
 From Coq Require Import Permutation.
 Open Scope Z_scope.
 
@@ -74,6 +74,36 @@ Theorem C03_sort_permutes_whole_lines :
 Proof. exact sort_permutes_whole_lines. Qed.
 Print Assumptions C03_sort_permutes_whole_lines.
 
+(* histories that END WITH THE SORTER (as PlistChecker.Check runs it: once, after all
+   other checks): the bytes on disk are consistent with the log, which now contains
+   "Sorting the whole file." -- under the guard [no_newline_args], a boolean predicate
+   on the history: no argument of Replace / ReplaceAfter / ReplaceAt contains a
+   newline, and the text ReplaceAfter looks for (prefix ++ from) is not empty *)
+Theorem C03_save_consistent_with_log_sorted_partial :
+  forall o keys file content groups evs st,
+    o_autofix o = true -> wf_groups content groups -> length keys = length groups ->
+    Forall no_sort_event evs -> no_newline_args evs = true ->
+    run o keys (evs ++ [ESort]) (init_state file groups) = Ok st ->
+    consistent content (entries_of file (s_log st)) (disk_after file content None (s_ops st)) = true.
+Proof. exact save_consistent_with_log_sorted_partial. Qed.
+Print Assumptions C03_save_consistent_with_log_sorted_partial.
+
+(* without the guard the statement is FALSE of the model: PLIST "b\na\n", a fix replaces
+   the terminator of line 2 by nothing, the sorter puts the unterminated "a" in front
+   of "b\n", the file is "ab\n" (witness by vm_compute) *)
+Theorem C03_save_consistent_with_log_sorted_refuted : ~ save_consistent_with_log_sorted_full.
+Proof. exact save_consistent_with_log_sorted_refuted. Qed.
+Print Assumptions C03_save_consistent_with_log_sorted_refuted.
+
+(* any number of serial views: view k+1 is loaded from what view k saved; the final
+   bytes are consistent with the concatenated log with n save-and-load-again points *)
+Theorem C03_multi_view_serial_n :
+  forall o file content log final n,
+    o_autofix o = true -> serial o file content log final n ->
+    consistent_hist n content log final = true.
+Proof. exact multi_view_serial_n. Qed.
+Print Assumptions C03_multi_view_serial_n.
+
 (* several views of one file, serially: the second view is loaded from what the first
    one saved (its line numbers are those of the intermediate file); the final bytes
    are consistent with the concatenated log, with one save-and-load-again point *)
@@ -122,3 +152,17 @@ Proof.
   - split; [vm_compute; reflexivity|]. repeat constructor; discriminate.
   - eexists. split; [vm_compute; reflexivity|]. split; vm_compute; reflexivity.
 Qed.
+
+(* the static side of the guard (gen/c03.go, regenerated on every run): the only string
+   literals with a newline that are passed to Replace / ReplaceAfter / ReplaceAt are
+   those of the CR fix for patch hunk headers ("\r\n" -> "\n", keeps the terminator,
+   PatchChecker: never followed by the PLIST sorter); the non-literal arguments are
+   listed in Gen/ReplaceArgs.v as the residual assumption *)
+From Coq Require Import String.
+Theorem C03_replace_newline_literals :
+  replace_newline_literal_sites =
+  ["patches.go PatchChecker.checktextUniHunkCr Replace(""\n"")"%string;
+   "patches.go PatchChecker.checktextUniHunkCr Replace(""\r\n"")"%string]%list.
+Proof. exact (eq_refl _). Qed.
+Print Assumptions C03_replace_newline_literals.
+
